@@ -56,6 +56,6 @@ def evaluate(case):
         if ix.parent[sp['id']] is not None:
             res.label('abort:nested')
     res.sample = dict(outcome=trace.outcome,
-                      aborts=[dict(sched=sp['id'], tau=an['tau'], end=an['rex']['t'])
+                      aborts=[dict(sched=sp['id'], tau=an['tau'], end=an['rex']['t'] if an['rex'] else None)
                               for sp, an in hits])
     return res
